@@ -177,3 +177,43 @@ pub fn filler(n: usize, salt: u64, letters: &[u8]) -> Vec<u8> {
     }
     v
 }
+
+/// ASCII strings of block-ish length in which the byte `d` occurs once (or twice), with each byte
+/// that a word-at-a-time scanner may confuse with `d` (d^1, d+1, d-1, d^0x20, 0x01, 0x7f, d|0x80 is
+/// not ASCII and left out) directly AFTER or BEFORE it, the pair sitting at every offset of the
+/// last / first 10 bytes and at every offset inside the first 8-byte words.
+pub fn confusable_strings(d: u8, thorough: bool) -> Vec<String> {
+    let mut out = Vec::new();
+    let lens: &[usize] = if thorough { &[16, 31, 32, 33, 40, 63, 64, 65, 72, 96] } else { &[31, 32, 33, 40, 64, 65] };
+    let mut nbs: Vec<u8> = vec![d ^ 1, d.wrapping_add(1), d.wrapping_sub(1), d ^ 0x20, 0x01, 0x7f];
+    nbs.retain(|b| *b < 0x80 && *b != d && *b != 0);
+    nbs.sort_unstable();
+    nbs.dedup();
+    for &len in lens {
+        let mut pos: Vec<usize> = (0..len.min(18)).collect();
+        pos.extend(len.saturating_sub(18)..len);
+        pos.sort_unstable();
+        pos.dedup();
+        for &p in &pos {
+            for &nb in &nbs {
+                for after in [true, false] {
+                    let mut v = vec![b'x'; len];
+                    v[p] = d;
+                    let q = if after { p + 1 } else { p.wrapping_sub(1) };
+                    if q >= len {
+                        continue;
+                    }
+                    v[q] = nb;
+                    out.push(String::from_utf8(v.clone()).unwrap());
+                    // a second, clean occurrence further away
+                    let r = (p + len / 2) % len;
+                    if r != p && r != q {
+                        v[r] = d;
+                        out.push(String::from_utf8(v).unwrap());
+                    }
+                }
+            }
+        }
+    }
+    out
+}
